@@ -165,25 +165,6 @@ def stereo_mol_graph_to_rdmol(
 
     map_num_idx_dict = {v: k for k, v in idx_map_num_dict.items()}
 
-    # Octahedral centres are encoded through the order of their bonds. The
-    # bonds have to be re-added before any other chiral tag is derived from
-    # the neighbor order of an atom, otherwise a stereogenic ligand atom that
-    # was handled earlier ends up with the metal at another position of its
-    # neighbor list (and with the opposite handedness).
-    for atom in graph.atoms:
-        a_stereo = graph.get_atom_stereo(atom)
-        if a_stereo is not None and isinstance(a_stereo, Octahedral):
-            atom_idx = map_num_idx_dict[atom]
-            for rd_n in mol.GetAtomWithIdx(atom_idx).GetNeighbors():
-                mol.RemoveBond(rd_n.GetIdx(), atom_idx)
-
-            for a in (1, 5, 6, 3, 4, 2):
-                a = a_stereo.atoms[a]
-                mol.AddBond(
-                    atom_idx,
-                    map_num_idx_dict[a],
-                )
-
     for atom in graph.atoms:
         a_stereo = graph.get_atom_stereo(atom)
         atom_idx = map_num_idx_dict[atom]
@@ -316,14 +297,37 @@ def stereo_mol_graph_to_rdmol(
                             break
 
         elif a_stereo is not None and isinstance(a_stereo, Octahedral):
-            # the bonds were already brought into the order of the
-            # descriptor (see above)
             rd_atom.SetChiralTag(Chem.ChiralType.CHI_OCTAHEDRAL)
             rd_atom.SetHybridization(Chem.HybridizationType.SP3D2)
-            if a_stereo.parity == 1:
-                rd_atom.SetUnsignedProp("_chiralPermutation", 1)
-            elif a_stereo.parity == -1:
-                rd_atom.SetUnsignedProp("_chiralPermutation", 2)
+            if a_stereo.parity is not None:
+                # The arrangement is encoded by the permutation label
+                # relative to the existing order of the bonds (same table as
+                # the importer). The bonds are left untouched: re-adding them
+                # in another order would change the neighbor order, and with
+                # it the handedness, of every stereogenic neighbor (a second
+                # octahedral centre, a chiral donor atom) and drop the bond
+                # orders.
+                from stereomolgraph.rdmol2graph import RDMol2StereoMolGraph
+
+                rd_nbrs = tuple(
+                    [
+                        idx_map_num_dict[nbr.GetIdx()]
+                        for nbr in rd_atom.GetNeighbors()
+                    ]
+                )
+                oct_label_order = (
+                    RDMol2StereoMolGraph._oct_atom_order_permutation_dict
+                )
+                if len(rd_nbrs) == 6:
+                    for label, order in oct_label_order.items():
+                        candidate = Octahedral(
+                            (atom, *[rd_nbrs[i] for i in order]), 1
+                        )
+                        if candidate == a_stereo:
+                            rd_atom.SetUnsignedProp(
+                                "_chiralPermutation", label
+                            )
+                            break
 
     for b_stereo in (bs for bs in graph.bond_stereo.values() if bs):
         a1, a2 = b_stereo.atoms[2], b_stereo.atoms[3]
